@@ -33,7 +33,8 @@ pub assume_specification [std::time::Duration::is_zero] (d: &std::time::Duration
 pub assume_specification [std::time::Duration::saturating_sub] (a: std::time::Duration, b: std::time::Duration) -> (r: std::time::Duration)
     ensures dur(r) == (if dur(a) >= dur(b) { dur(a) - dur(b) } else { 0 }) as nat;
 pub assume_specification [std::time::Instant::checked_sub] (i: &std::time::Instant, d: std::time::Duration) -> (r: std::option::Option<std::time::Instant>)
-    ensures r matches Some(x) ==> inst(x) == inst(*i) - dur(d);
+    ensures r matches Some(x) ==> inst(x) == inst(*i) - dur(d),
+            r is None ==> inst(*i) - dur(d) < inst_floor();
 pub assume_specification [<std::time::Duration as Clone>::clone] (d: &std::time::Duration) -> (r: std::time::Duration)
     ensures r == *d;
 pub assume_specification [<std::time::Instant as Clone>::clone] (d: &std::time::Instant) -> (r: std::time::Instant)
@@ -44,4 +45,11 @@ pub assume_specification<T: std::cmp::Ord + std::marker::Destruct> [std::cmp::mi
     ensures r == (if vstd::std_specs::cmp::OrdSpec::cmp_spec(&a, &b) is Greater { b } else { a });
 pub assume_specification<T: std::cmp::Ord + std::marker::Destruct> [std::cmp::max] (a: T, b: T) -> (r: T)
     ensures r == (if vstd::std_specs::cmp::OrdSpec::cmp_spec(&a, &b) is Greater { a } else { b });
+}
+verus! {
+pub uninterp spec fn inst_floor() -> int;
+}
+verus! {
+pub assume_specification<T> [<[T]>::reverse] (s: &mut [T])
+    ensures final(s)@ == old(s)@.reverse();
 }
